@@ -38,7 +38,7 @@ def run_impl(case, handler=None):
             raise EXC[case[4] % len(EXC)]
         return io.BytesIO(content)
     try:
-        log = fake_net.run_transfer([(1, T.ADDRS[0], T.ack(1))], handler or h, {}, default_timeout=1, max_retries=0)
+        log = fake_net.run_transfer([(1, T.ADDRS[0], T.ack(1))], handler or h, {}, default_timeout=1, max_retries=1)
     finally:
         threading.excepthook = old_hook
     packets = []
